@@ -1,3 +1,4 @@
+import Std.Data.HashSet
 import AM.Spec.Sshd
 import AM.Model.Syslog
 import AM.Proto
@@ -192,6 +193,8 @@ def dirLine (f : List String) : String :=
       if o == "rot" then some Dir.FsOp.rotate
       else if o == "trunc" then some Dir.FsOp.truncate
       else if o.startsWith "a:" then (ofHex (o.drop 2).toString).map Dir.FsOp.append
+      -- an append whose first read attempt fails before any byte was read and is retried: `C20R.retry_after_failed_attempt`
+      else if o.startsWith "fa:" || o.startsWith "fo:" then (ofHex (o.drop 3).toString).map Dir.FsOp.append
       else none
     match fs, os with
     | some fs, some os =>
@@ -514,9 +517,12 @@ def noiseItems (n : Nat) : List String := (List.range n).map fun i => s!"F:{2000
 
 def specHandoff (ss : List HSess) (noise : Nat) (torn : String) (raw : List String) : Option String :=
   let expected := (ss.flatMap fun s => s!"L:{s.pid}" :: (hoEvents s).map fun e => s!"A:{s.ses}:{e.1.ts}") ++ noiseItems noise
+  -- (hash sets: the observations of the saturated cases have tens of thousands of lines)
+  let expectedSet : Std.HashSet String := Std.HashSet.ofList expected
+  let rawSet : Std.HashSet String := Std.HashSet.ofList raw
   if torn != "0" then some "torn-or-interleaved-line"
-  else if raw.eraseDups.length ≠ raw.length then some "event-written-twice"
-  else if !(raw.all fun x => expected.contains x) then some "unexpected-event"
+  else if rawSet.size ≠ raw.length then some "event-written-twice"
+  else if !(raw.all fun x => expectedSet.contains x) then some "unexpected-event"
   else
     -- causal order: a UserAction of session s comes after the UserLogin of s's login
     let idx := (List.range raw.length).zip raw
@@ -531,7 +537,7 @@ def specHandoff (ss : List HSess) (noise : Nat) (torn : String) (raw : List Stri
         let want := (hoEvents s).map fun e => s!"A:{s.ses}:{e.1.ts}"
         mine != want.filter fun x => mine.contains x
       if unordered then some "session-events-out-of-order"
-      else if !(expected.all fun x => raw.contains x) then some "event-missing"
+      else if !(expected.all fun x => rawSet.contains x) then some "event-missing"
       else none
 
 /-- `<id> <mode> <sess,sess,…> <delays> [obs=T:n;sorted items] [raw=T:n|items in file order]` -/
